@@ -592,12 +592,114 @@ package tsm1
 //@   loop 1 invariant none_tombstoned_so_far: 1 <= i && (!dedup ==> all(j, 0, i, j < len(k.blocks) ==> len(k.blocks[j].tombstones) == 0))
 //@   call tsmKeyIterator.combineBoolean#1 requires tombstoned_blocks_take_the_decode_path: dedup || all(j, 0, len(k.blocks), len(k.blocks[j].tombstones) == 0)
 
-
+// ---- GENERATED-CURSORS BEGIN (gen/gen_cursor_contracts.py) ----
 // ---- C02: the array cursors overlay cache on TSM values: one point per timestamp, cache wins a tie ----
-// Both inputs are strictly increasing in time (the cache values were deduplicated, a TSM block is sorted). A
-// descending cursor walks both backwards; after every emitted point the heads still to be read on BOTH sides are
-// strictly older than it. That is what makes the output strictly decreasing - in particular on a tie both sides
-// advance, otherwise the stale TSM value of the same timestamp would follow the cache value.
+// Both inputs are strictly increasing in time (the cache values were deduplicated, a TSM block is sorted and the
+// key cursor hands out blocks in time order without overlap). After every emitted point the heads still to be
+// read on BOTH sides lie strictly beyond it in the direction of travel. That makes the output strictly monotone -
+// in particular on a tie both sides advance, otherwise the stale TSM value of the same timestamp would follow
+// (or precede) the cache value.
+
+//@ func (*booleanArrayAscendingCursor).nextTSM
+//@   assumed
+//@   modifies *except c.cache c.res c.end c.res.Timestamps c.res.Values c.res.Timestamps[:] c.res.Values[:] c.cache.values[:]
+//@   ensures positioned_at_the_start: result != nil && result == c.tsm.values && c.tsm.pos == 0
+//@   ensures block_is_sorted: all(i, 0, len(result.Timestamps), all(j, i+1, len(result.Timestamps), result.Timestamps[i] < result.Timestamps[j]))
+//@   ensures block_is_not_the_result_buffer: result != c.res && arr(result.Timestamps) != arr(c.res.Timestamps) && arr(result.Timestamps) != arr(c.res.Values)
+//@   ensures newer_than_the_block_before: old(len(c.tsm.values.Timestamps)) > 0 ==> all(k, 0, len(result.Timestamps), result.Timestamps[k] > old(c.tsm.values.Timestamps[len(c.tsm.values.Timestamps)-1]))
+
+//@ func (*booleanArrayAscendingCursor).Next
+//@   props C02
+//@   nosafety
+//@   requires cache_sorted: all(i, 0, len(c.cache.values), all(j, i+1, len(c.cache.values), value_ts(c.cache.values[i]) < value_ts(c.cache.values[j])))
+//@   requires block_sorted: c.tsm.values != nil && all(i, 0, len(c.tsm.values.Timestamps), all(j, i+1, len(c.tsm.values.Timestamps), c.tsm.values.Timestamps[i] < c.tsm.values.Timestamps[j]))
+//@   requires positions: 0 <= c.cache.pos && 0 <= c.tsm.pos && c.res != nil
+//@   requires own_result_buffer: arr(c.res.Timestamps) != arr(c.tsm.values.Timestamps) && arr(c.res.Values) != arr(c.tsm.values.Timestamps) && arr(c.res.Values) != arr(c.res.Timestamps) && c.res != c.tsm.values
+//@   loop 1 invariant walking: 0 <= pos && arr(c.cache.values) == arr(cvals) && off(c.cache.values) == off(cvals) && len(c.cache.values) == len(cvals) && tvals != nil && tvals == c.tsm.values && 0 <= c.cache.pos && 0 <= c.tsm.pos && arr(c.res.Timestamps) != arr(tvals.Timestamps) && arr(c.res.Values) != arr(tvals.Timestamps) && arr(c.res.Values) != arr(c.res.Timestamps) && c.res != tvals
+//@   loop 1 invariant still_sorted: all(i, 0, len(tvals.Timestamps), all(j, i+1, len(tvals.Timestamps), tvals.Timestamps[i] < tvals.Timestamps[j]))
+//@   loop 1 invariant cache_still_sorted: all(i, 0, len(cvals), all(j, i+1, len(cvals), value_ts(cvals[i]) < value_ts(cvals[j])))
+//@   loop 1 invariant heads_are_newer_than_the_last_point: pos > 0 ==> (c.cache.pos < len(cvals) ==> value_ts(cvals[c.cache.pos]) > c.res.Timestamps[pos-1]) && (c.tsm.pos < len(tvals.Timestamps) ==> tvals.Timestamps[c.tsm.pos] > c.res.Timestamps[pos-1])
+
+//@ func (*booleanArrayDescendingCursor).nextTSM
+//@   assumed
+//@   modifies *except c.cache c.res c.end c.res.Timestamps c.res.Values c.res.Timestamps[:] c.res.Values[:] c.cache.values[:]
+//@   ensures positioned_at_the_end: result != nil && result == c.tsm.values && c.tsm.pos == len(result.Timestamps) - 1
+//@   ensures block_is_sorted: all(i, 0, len(result.Timestamps), all(j, i+1, len(result.Timestamps), result.Timestamps[i] < result.Timestamps[j]))
+//@   ensures block_is_not_the_result_buffer: result != c.res && arr(result.Timestamps) != arr(c.res.Timestamps) && arr(result.Timestamps) != arr(c.res.Values)
+//@   ensures older_than_the_block_before: old(len(c.tsm.values.Timestamps)) > 0 ==> all(k, 0, len(result.Timestamps), result.Timestamps[k] < old(c.tsm.values.Timestamps[0]))
+
+//@ func (*booleanArrayDescendingCursor).Next
+//@   props C02
+//@   nosafety
+//@   requires cache_sorted: all(i, 0, len(c.cache.values), all(j, i+1, len(c.cache.values), value_ts(c.cache.values[i]) < value_ts(c.cache.values[j])))
+//@   requires block_sorted: c.tsm.values != nil && all(i, 0, len(c.tsm.values.Timestamps), all(j, i+1, len(c.tsm.values.Timestamps), c.tsm.values.Timestamps[i] < c.tsm.values.Timestamps[j]))
+//@   requires positions: c.cache.pos < len(c.cache.values) && c.tsm.pos < len(c.tsm.values.Timestamps) && c.res != nil
+//@   requires own_result_buffer: arr(c.res.Timestamps) != arr(c.tsm.values.Timestamps) && arr(c.res.Values) != arr(c.tsm.values.Timestamps) && arr(c.res.Values) != arr(c.res.Timestamps) && c.res != c.tsm.values
+//@   loop 1 invariant walking: 0 <= pos && arr(c.cache.values) == arr(cvals) && off(c.cache.values) == off(cvals) && len(c.cache.values) == len(cvals) && tvals != nil && tvals == c.tsm.values && c.cache.pos < len(cvals) && c.tsm.pos < len(tvals.Timestamps) && arr(c.res.Timestamps) != arr(tvals.Timestamps) && arr(c.res.Values) != arr(tvals.Timestamps) && arr(c.res.Values) != arr(c.res.Timestamps) && c.res != tvals
+//@   loop 1 invariant still_sorted: all(i, 0, len(tvals.Timestamps), all(j, i+1, len(tvals.Timestamps), tvals.Timestamps[i] < tvals.Timestamps[j]))
+//@   loop 1 invariant cache_still_sorted: all(i, 0, len(cvals), all(j, i+1, len(cvals), value_ts(cvals[i]) < value_ts(cvals[j])))
+//@   loop 1 invariant heads_are_older_than_the_last_point: pos > 0 ==> (c.cache.pos >= 0 ==> value_ts(cvals[c.cache.pos]) < c.res.Timestamps[pos-1]) && (c.tsm.pos >= 0 ==> tvals.Timestamps[c.tsm.pos] < c.res.Timestamps[pos-1])
+
+//@ func (*floatArrayAscendingCursor).nextTSM
+//@   assumed
+//@   modifies *except c.cache c.res c.end c.res.Timestamps c.res.Values c.res.Timestamps[:] c.res.Values[:] c.cache.values[:]
+//@   ensures positioned_at_the_start: result != nil && result == c.tsm.values && c.tsm.pos == 0
+//@   ensures block_is_sorted: all(i, 0, len(result.Timestamps), all(j, i+1, len(result.Timestamps), result.Timestamps[i] < result.Timestamps[j]))
+//@   ensures block_is_not_the_result_buffer: result != c.res && arr(result.Timestamps) != arr(c.res.Timestamps) && arr(result.Timestamps) != arr(c.res.Values)
+//@   ensures newer_than_the_block_before: old(len(c.tsm.values.Timestamps)) > 0 ==> all(k, 0, len(result.Timestamps), result.Timestamps[k] > old(c.tsm.values.Timestamps[len(c.tsm.values.Timestamps)-1]))
+
+//@ func (*floatArrayAscendingCursor).Next
+//@   props C02
+//@   nosafety
+//@   requires cache_sorted: all(i, 0, len(c.cache.values), all(j, i+1, len(c.cache.values), value_ts(c.cache.values[i]) < value_ts(c.cache.values[j])))
+//@   requires block_sorted: c.tsm.values != nil && all(i, 0, len(c.tsm.values.Timestamps), all(j, i+1, len(c.tsm.values.Timestamps), c.tsm.values.Timestamps[i] < c.tsm.values.Timestamps[j]))
+//@   requires positions: 0 <= c.cache.pos && 0 <= c.tsm.pos && c.res != nil
+//@   requires own_result_buffer: arr(c.res.Timestamps) != arr(c.tsm.values.Timestamps) && arr(c.res.Values) != arr(c.tsm.values.Timestamps) && arr(c.res.Values) != arr(c.res.Timestamps) && c.res != c.tsm.values
+//@   loop 1 invariant walking: 0 <= pos && arr(c.cache.values) == arr(cvals) && off(c.cache.values) == off(cvals) && len(c.cache.values) == len(cvals) && tvals != nil && tvals == c.tsm.values && 0 <= c.cache.pos && 0 <= c.tsm.pos && arr(c.res.Timestamps) != arr(tvals.Timestamps) && arr(c.res.Values) != arr(tvals.Timestamps) && arr(c.res.Values) != arr(c.res.Timestamps) && c.res != tvals
+//@   loop 1 invariant still_sorted: all(i, 0, len(tvals.Timestamps), all(j, i+1, len(tvals.Timestamps), tvals.Timestamps[i] < tvals.Timestamps[j]))
+//@   loop 1 invariant cache_still_sorted: all(i, 0, len(cvals), all(j, i+1, len(cvals), value_ts(cvals[i]) < value_ts(cvals[j])))
+//@   loop 1 invariant heads_are_newer_than_the_last_point: pos > 0 ==> (c.cache.pos < len(cvals) ==> value_ts(cvals[c.cache.pos]) > c.res.Timestamps[pos-1]) && (c.tsm.pos < len(tvals.Timestamps) ==> tvals.Timestamps[c.tsm.pos] > c.res.Timestamps[pos-1])
+
+//@ func (*floatArrayDescendingCursor).nextTSM
+//@   assumed
+//@   modifies *except c.cache c.res c.end c.res.Timestamps c.res.Values c.res.Timestamps[:] c.res.Values[:] c.cache.values[:]
+//@   ensures positioned_at_the_end: result != nil && result == c.tsm.values && c.tsm.pos == len(result.Timestamps) - 1
+//@   ensures block_is_sorted: all(i, 0, len(result.Timestamps), all(j, i+1, len(result.Timestamps), result.Timestamps[i] < result.Timestamps[j]))
+//@   ensures block_is_not_the_result_buffer: result != c.res && arr(result.Timestamps) != arr(c.res.Timestamps) && arr(result.Timestamps) != arr(c.res.Values)
+//@   ensures older_than_the_block_before: old(len(c.tsm.values.Timestamps)) > 0 ==> all(k, 0, len(result.Timestamps), result.Timestamps[k] < old(c.tsm.values.Timestamps[0]))
+
+//@ func (*floatArrayDescendingCursor).Next
+//@   props C02
+//@   nosafety
+//@   requires cache_sorted: all(i, 0, len(c.cache.values), all(j, i+1, len(c.cache.values), value_ts(c.cache.values[i]) < value_ts(c.cache.values[j])))
+//@   requires block_sorted: c.tsm.values != nil && all(i, 0, len(c.tsm.values.Timestamps), all(j, i+1, len(c.tsm.values.Timestamps), c.tsm.values.Timestamps[i] < c.tsm.values.Timestamps[j]))
+//@   requires positions: c.cache.pos < len(c.cache.values) && c.tsm.pos < len(c.tsm.values.Timestamps) && c.res != nil
+//@   requires own_result_buffer: arr(c.res.Timestamps) != arr(c.tsm.values.Timestamps) && arr(c.res.Values) != arr(c.tsm.values.Timestamps) && arr(c.res.Values) != arr(c.res.Timestamps) && c.res != c.tsm.values
+//@   loop 1 invariant walking: 0 <= pos && arr(c.cache.values) == arr(cvals) && off(c.cache.values) == off(cvals) && len(c.cache.values) == len(cvals) && tvals != nil && tvals == c.tsm.values && c.cache.pos < len(cvals) && c.tsm.pos < len(tvals.Timestamps) && arr(c.res.Timestamps) != arr(tvals.Timestamps) && arr(c.res.Values) != arr(tvals.Timestamps) && arr(c.res.Values) != arr(c.res.Timestamps) && c.res != tvals
+//@   loop 1 invariant still_sorted: all(i, 0, len(tvals.Timestamps), all(j, i+1, len(tvals.Timestamps), tvals.Timestamps[i] < tvals.Timestamps[j]))
+//@   loop 1 invariant cache_still_sorted: all(i, 0, len(cvals), all(j, i+1, len(cvals), value_ts(cvals[i]) < value_ts(cvals[j])))
+//@   loop 1 invariant heads_are_older_than_the_last_point: pos > 0 ==> (c.cache.pos >= 0 ==> value_ts(cvals[c.cache.pos]) < c.res.Timestamps[pos-1]) && (c.tsm.pos >= 0 ==> tvals.Timestamps[c.tsm.pos] < c.res.Timestamps[pos-1])
+
+//@ func (*integerArrayAscendingCursor).nextTSM
+//@   assumed
+//@   modifies *except c.cache c.res c.end c.res.Timestamps c.res.Values c.res.Timestamps[:] c.res.Values[:] c.cache.values[:]
+//@   ensures positioned_at_the_start: result != nil && result == c.tsm.values && c.tsm.pos == 0
+//@   ensures block_is_sorted: all(i, 0, len(result.Timestamps), all(j, i+1, len(result.Timestamps), result.Timestamps[i] < result.Timestamps[j]))
+//@   ensures block_is_not_the_result_buffer: result != c.res && arr(result.Timestamps) != arr(c.res.Timestamps) && arr(result.Timestamps) != arr(c.res.Values)
+//@   ensures newer_than_the_block_before: old(len(c.tsm.values.Timestamps)) > 0 ==> all(k, 0, len(result.Timestamps), result.Timestamps[k] > old(c.tsm.values.Timestamps[len(c.tsm.values.Timestamps)-1]))
+
+//@ func (*integerArrayAscendingCursor).Next
+//@   props C02
+//@   nosafety
+//@   requires cache_sorted: all(i, 0, len(c.cache.values), all(j, i+1, len(c.cache.values), value_ts(c.cache.values[i]) < value_ts(c.cache.values[j])))
+//@   requires block_sorted: c.tsm.values != nil && all(i, 0, len(c.tsm.values.Timestamps), all(j, i+1, len(c.tsm.values.Timestamps), c.tsm.values.Timestamps[i] < c.tsm.values.Timestamps[j]))
+//@   requires positions: 0 <= c.cache.pos && 0 <= c.tsm.pos && c.res != nil
+//@   requires own_result_buffer: arr(c.res.Timestamps) != arr(c.tsm.values.Timestamps) && arr(c.res.Values) != arr(c.tsm.values.Timestamps) && arr(c.res.Values) != arr(c.res.Timestamps) && c.res != c.tsm.values
+//@   loop 1 invariant walking: 0 <= pos && arr(c.cache.values) == arr(cvals) && off(c.cache.values) == off(cvals) && len(c.cache.values) == len(cvals) && tvals != nil && tvals == c.tsm.values && 0 <= c.cache.pos && 0 <= c.tsm.pos && arr(c.res.Timestamps) != arr(tvals.Timestamps) && arr(c.res.Values) != arr(tvals.Timestamps) && arr(c.res.Values) != arr(c.res.Timestamps) && c.res != tvals
+//@   loop 1 invariant still_sorted: all(i, 0, len(tvals.Timestamps), all(j, i+1, len(tvals.Timestamps), tvals.Timestamps[i] < tvals.Timestamps[j]))
+//@   loop 1 invariant cache_still_sorted: all(i, 0, len(cvals), all(j, i+1, len(cvals), value_ts(cvals[i]) < value_ts(cvals[j])))
+//@   loop 1 invariant heads_are_newer_than_the_last_point: pos > 0 ==> (c.cache.pos < len(cvals) ==> value_ts(cvals[c.cache.pos]) > c.res.Timestamps[pos-1]) && (c.tsm.pos < len(tvals.Timestamps) ==> tvals.Timestamps[c.tsm.pos] > c.res.Timestamps[pos-1])
+
 //@ func (*integerArrayDescendingCursor).nextTSM
 //@   assumed
 //@   modifies *except c.cache c.res c.end c.res.Timestamps c.res.Values c.res.Timestamps[:] c.res.Values[:] c.cache.values[:]
@@ -617,3 +719,85 @@ package tsm1
 //@   loop 1 invariant still_sorted: all(i, 0, len(tvals.Timestamps), all(j, i+1, len(tvals.Timestamps), tvals.Timestamps[i] < tvals.Timestamps[j]))
 //@   loop 1 invariant cache_still_sorted: all(i, 0, len(cvals), all(j, i+1, len(cvals), value_ts(cvals[i]) < value_ts(cvals[j])))
 //@   loop 1 invariant heads_are_older_than_the_last_point: pos > 0 ==> (c.cache.pos >= 0 ==> value_ts(cvals[c.cache.pos]) < c.res.Timestamps[pos-1]) && (c.tsm.pos >= 0 ==> tvals.Timestamps[c.tsm.pos] < c.res.Timestamps[pos-1])
+
+//@ func (*stringArrayAscendingCursor).nextTSM
+//@   assumed
+//@   modifies *except c.cache c.res c.end c.res.Timestamps c.res.Values c.res.Timestamps[:] c.res.Values[:] c.cache.values[:]
+//@   ensures positioned_at_the_start: result != nil && result == c.tsm.values && c.tsm.pos == 0
+//@   ensures block_is_sorted: all(i, 0, len(result.Timestamps), all(j, i+1, len(result.Timestamps), result.Timestamps[i] < result.Timestamps[j]))
+//@   ensures block_is_not_the_result_buffer: result != c.res && arr(result.Timestamps) != arr(c.res.Timestamps) && arr(result.Timestamps) != arr(c.res.Values)
+//@   ensures newer_than_the_block_before: old(len(c.tsm.values.Timestamps)) > 0 ==> all(k, 0, len(result.Timestamps), result.Timestamps[k] > old(c.tsm.values.Timestamps[len(c.tsm.values.Timestamps)-1]))
+
+//@ func (*stringArrayAscendingCursor).Next
+//@   props C02
+//@   nosafety
+//@   requires cache_sorted: all(i, 0, len(c.cache.values), all(j, i+1, len(c.cache.values), value_ts(c.cache.values[i]) < value_ts(c.cache.values[j])))
+//@   requires block_sorted: c.tsm.values != nil && all(i, 0, len(c.tsm.values.Timestamps), all(j, i+1, len(c.tsm.values.Timestamps), c.tsm.values.Timestamps[i] < c.tsm.values.Timestamps[j]))
+//@   requires positions: 0 <= c.cache.pos && 0 <= c.tsm.pos && c.res != nil
+//@   requires own_result_buffer: arr(c.res.Timestamps) != arr(c.tsm.values.Timestamps) && arr(c.res.Values) != arr(c.tsm.values.Timestamps) && arr(c.res.Values) != arr(c.res.Timestamps) && c.res != c.tsm.values
+//@   loop 1 invariant walking: 0 <= pos && arr(c.cache.values) == arr(cvals) && off(c.cache.values) == off(cvals) && len(c.cache.values) == len(cvals) && tvals != nil && tvals == c.tsm.values && 0 <= c.cache.pos && 0 <= c.tsm.pos && arr(c.res.Timestamps) != arr(tvals.Timestamps) && arr(c.res.Values) != arr(tvals.Timestamps) && arr(c.res.Values) != arr(c.res.Timestamps) && c.res != tvals
+//@   loop 1 invariant still_sorted: all(i, 0, len(tvals.Timestamps), all(j, i+1, len(tvals.Timestamps), tvals.Timestamps[i] < tvals.Timestamps[j]))
+//@   loop 1 invariant cache_still_sorted: all(i, 0, len(cvals), all(j, i+1, len(cvals), value_ts(cvals[i]) < value_ts(cvals[j])))
+//@   loop 1 invariant heads_are_newer_than_the_last_point: pos > 0 ==> (c.cache.pos < len(cvals) ==> value_ts(cvals[c.cache.pos]) > c.res.Timestamps[pos-1]) && (c.tsm.pos < len(tvals.Timestamps) ==> tvals.Timestamps[c.tsm.pos] > c.res.Timestamps[pos-1])
+
+//@ func (*stringArrayDescendingCursor).nextTSM
+//@   assumed
+//@   modifies *except c.cache c.res c.end c.res.Timestamps c.res.Values c.res.Timestamps[:] c.res.Values[:] c.cache.values[:]
+//@   ensures positioned_at_the_end: result != nil && result == c.tsm.values && c.tsm.pos == len(result.Timestamps) - 1
+//@   ensures block_is_sorted: all(i, 0, len(result.Timestamps), all(j, i+1, len(result.Timestamps), result.Timestamps[i] < result.Timestamps[j]))
+//@   ensures block_is_not_the_result_buffer: result != c.res && arr(result.Timestamps) != arr(c.res.Timestamps) && arr(result.Timestamps) != arr(c.res.Values)
+//@   ensures older_than_the_block_before: old(len(c.tsm.values.Timestamps)) > 0 ==> all(k, 0, len(result.Timestamps), result.Timestamps[k] < old(c.tsm.values.Timestamps[0]))
+
+//@ func (*stringArrayDescendingCursor).Next
+//@   props C02
+//@   nosafety
+//@   requires cache_sorted: all(i, 0, len(c.cache.values), all(j, i+1, len(c.cache.values), value_ts(c.cache.values[i]) < value_ts(c.cache.values[j])))
+//@   requires block_sorted: c.tsm.values != nil && all(i, 0, len(c.tsm.values.Timestamps), all(j, i+1, len(c.tsm.values.Timestamps), c.tsm.values.Timestamps[i] < c.tsm.values.Timestamps[j]))
+//@   requires positions: c.cache.pos < len(c.cache.values) && c.tsm.pos < len(c.tsm.values.Timestamps) && c.res != nil
+//@   requires own_result_buffer: arr(c.res.Timestamps) != arr(c.tsm.values.Timestamps) && arr(c.res.Values) != arr(c.tsm.values.Timestamps) && arr(c.res.Values) != arr(c.res.Timestamps) && c.res != c.tsm.values
+//@   loop 1 invariant walking: 0 <= pos && arr(c.cache.values) == arr(cvals) && off(c.cache.values) == off(cvals) && len(c.cache.values) == len(cvals) && tvals != nil && tvals == c.tsm.values && c.cache.pos < len(cvals) && c.tsm.pos < len(tvals.Timestamps) && arr(c.res.Timestamps) != arr(tvals.Timestamps) && arr(c.res.Values) != arr(tvals.Timestamps) && arr(c.res.Values) != arr(c.res.Timestamps) && c.res != tvals
+//@   loop 1 invariant still_sorted: all(i, 0, len(tvals.Timestamps), all(j, i+1, len(tvals.Timestamps), tvals.Timestamps[i] < tvals.Timestamps[j]))
+//@   loop 1 invariant cache_still_sorted: all(i, 0, len(cvals), all(j, i+1, len(cvals), value_ts(cvals[i]) < value_ts(cvals[j])))
+//@   loop 1 invariant heads_are_older_than_the_last_point: pos > 0 ==> (c.cache.pos >= 0 ==> value_ts(cvals[c.cache.pos]) < c.res.Timestamps[pos-1]) && (c.tsm.pos >= 0 ==> tvals.Timestamps[c.tsm.pos] < c.res.Timestamps[pos-1])
+
+//@ func (*unsignedArrayAscendingCursor).nextTSM
+//@   assumed
+//@   modifies *except c.cache c.res c.end c.res.Timestamps c.res.Values c.res.Timestamps[:] c.res.Values[:] c.cache.values[:]
+//@   ensures positioned_at_the_start: result != nil && result == c.tsm.values && c.tsm.pos == 0
+//@   ensures block_is_sorted: all(i, 0, len(result.Timestamps), all(j, i+1, len(result.Timestamps), result.Timestamps[i] < result.Timestamps[j]))
+//@   ensures block_is_not_the_result_buffer: result != c.res && arr(result.Timestamps) != arr(c.res.Timestamps) && arr(result.Timestamps) != arr(c.res.Values)
+//@   ensures newer_than_the_block_before: old(len(c.tsm.values.Timestamps)) > 0 ==> all(k, 0, len(result.Timestamps), result.Timestamps[k] > old(c.tsm.values.Timestamps[len(c.tsm.values.Timestamps)-1]))
+
+//@ func (*unsignedArrayAscendingCursor).Next
+//@   props C02
+//@   nosafety
+//@   requires cache_sorted: all(i, 0, len(c.cache.values), all(j, i+1, len(c.cache.values), value_ts(c.cache.values[i]) < value_ts(c.cache.values[j])))
+//@   requires block_sorted: c.tsm.values != nil && all(i, 0, len(c.tsm.values.Timestamps), all(j, i+1, len(c.tsm.values.Timestamps), c.tsm.values.Timestamps[i] < c.tsm.values.Timestamps[j]))
+//@   requires positions: 0 <= c.cache.pos && 0 <= c.tsm.pos && c.res != nil
+//@   requires own_result_buffer: arr(c.res.Timestamps) != arr(c.tsm.values.Timestamps) && arr(c.res.Values) != arr(c.tsm.values.Timestamps) && arr(c.res.Values) != arr(c.res.Timestamps) && c.res != c.tsm.values
+//@   loop 1 invariant walking: 0 <= pos && arr(c.cache.values) == arr(cvals) && off(c.cache.values) == off(cvals) && len(c.cache.values) == len(cvals) && tvals != nil && tvals == c.tsm.values && 0 <= c.cache.pos && 0 <= c.tsm.pos && arr(c.res.Timestamps) != arr(tvals.Timestamps) && arr(c.res.Values) != arr(tvals.Timestamps) && arr(c.res.Values) != arr(c.res.Timestamps) && c.res != tvals
+//@   loop 1 invariant still_sorted: all(i, 0, len(tvals.Timestamps), all(j, i+1, len(tvals.Timestamps), tvals.Timestamps[i] < tvals.Timestamps[j]))
+//@   loop 1 invariant cache_still_sorted: all(i, 0, len(cvals), all(j, i+1, len(cvals), value_ts(cvals[i]) < value_ts(cvals[j])))
+//@   loop 1 invariant heads_are_newer_than_the_last_point: pos > 0 ==> (c.cache.pos < len(cvals) ==> value_ts(cvals[c.cache.pos]) > c.res.Timestamps[pos-1]) && (c.tsm.pos < len(tvals.Timestamps) ==> tvals.Timestamps[c.tsm.pos] > c.res.Timestamps[pos-1])
+
+//@ func (*unsignedArrayDescendingCursor).nextTSM
+//@   assumed
+//@   modifies *except c.cache c.res c.end c.res.Timestamps c.res.Values c.res.Timestamps[:] c.res.Values[:] c.cache.values[:]
+//@   ensures positioned_at_the_end: result != nil && result == c.tsm.values && c.tsm.pos == len(result.Timestamps) - 1
+//@   ensures block_is_sorted: all(i, 0, len(result.Timestamps), all(j, i+1, len(result.Timestamps), result.Timestamps[i] < result.Timestamps[j]))
+//@   ensures block_is_not_the_result_buffer: result != c.res && arr(result.Timestamps) != arr(c.res.Timestamps) && arr(result.Timestamps) != arr(c.res.Values)
+//@   ensures older_than_the_block_before: old(len(c.tsm.values.Timestamps)) > 0 ==> all(k, 0, len(result.Timestamps), result.Timestamps[k] < old(c.tsm.values.Timestamps[0]))
+
+//@ func (*unsignedArrayDescendingCursor).Next
+//@   props C02
+//@   nosafety
+//@   requires cache_sorted: all(i, 0, len(c.cache.values), all(j, i+1, len(c.cache.values), value_ts(c.cache.values[i]) < value_ts(c.cache.values[j])))
+//@   requires block_sorted: c.tsm.values != nil && all(i, 0, len(c.tsm.values.Timestamps), all(j, i+1, len(c.tsm.values.Timestamps), c.tsm.values.Timestamps[i] < c.tsm.values.Timestamps[j]))
+//@   requires positions: c.cache.pos < len(c.cache.values) && c.tsm.pos < len(c.tsm.values.Timestamps) && c.res != nil
+//@   requires own_result_buffer: arr(c.res.Timestamps) != arr(c.tsm.values.Timestamps) && arr(c.res.Values) != arr(c.tsm.values.Timestamps) && arr(c.res.Values) != arr(c.res.Timestamps) && c.res != c.tsm.values
+//@   loop 1 invariant walking: 0 <= pos && arr(c.cache.values) == arr(cvals) && off(c.cache.values) == off(cvals) && len(c.cache.values) == len(cvals) && tvals != nil && tvals == c.tsm.values && c.cache.pos < len(cvals) && c.tsm.pos < len(tvals.Timestamps) && arr(c.res.Timestamps) != arr(tvals.Timestamps) && arr(c.res.Values) != arr(tvals.Timestamps) && arr(c.res.Values) != arr(c.res.Timestamps) && c.res != tvals
+//@   loop 1 invariant still_sorted: all(i, 0, len(tvals.Timestamps), all(j, i+1, len(tvals.Timestamps), tvals.Timestamps[i] < tvals.Timestamps[j]))
+//@   loop 1 invariant cache_still_sorted: all(i, 0, len(cvals), all(j, i+1, len(cvals), value_ts(cvals[i]) < value_ts(cvals[j])))
+//@   loop 1 invariant heads_are_older_than_the_last_point: pos > 0 ==> (c.cache.pos >= 0 ==> value_ts(cvals[c.cache.pos]) < c.res.Timestamps[pos-1]) && (c.tsm.pos >= 0 ==> tvals.Timestamps[c.tsm.pos] < c.res.Timestamps[pos-1])
+
+// ---- GENERATED-CURSORS END ----
